@@ -178,9 +178,28 @@ var p2Big = new(big.Int).Mul(refP, refP)
 var p4Big = new(big.Int).Mul(p2Big, p2Big)
 
 func execT2(w []string) h.Result {
+	alias := "n"
+	if strings.HasSuffix(w[0], "a") {
+		alias = w[2]
+		w = append([]string{w[0], w[1]}, w[3:]...)
+	}
 	op := w[1]
 	av := parseFes(w[2], 2)
 	var a, b, r fe2
+	pr, pa, pb := &r, &a, &b
+	switch alias {
+	case "n":
+	case "ca":
+		pr = pa
+	case "cb":
+		pr = pb
+	case "ab":
+		pb = pa
+	case "cab":
+		pb, pr = pa, pa
+	default:
+		panic("unknown alias " + alias)
+	}
 	copy(a[:], av)
 	res := h.Result{Class: "t2-" + op, Nontrivial: true}
 	ok := allReduced(av)
@@ -189,23 +208,23 @@ func execT2(w []string) h.Result {
 	haveWant := true
 	switch op {
 	case "sq":
-		asFp2(&r).Square(asFp2(&a))
+		asFp2(pr).Square(asFp2(pa))
 		want = r2mul(ra, ra)
 	case "inv":
-		asFp2(&r).Invert(asFp2(&a))
+		asFp2(pr).Invert(asFp2(pa))
 		want = r2inv(ra)
 	case "xi":
-		asFp2(&r).MulXi(asFp2(&a))
+		asFp2(pr).MulXi(asFp2(pa))
 		want = r2mul(refXi, ra)
 	case "conj":
-		asFp2(&r).Conjugate(asFp2(&a))
+		asFp2(pr).Conjugate(asFp2(pa))
 		want = r2{mod(new(big.Int).Neg(ra.x)), ra.y}
 	case "neg":
-		asFp2(&r).Neg(asFp2(&a))
+		asFp2(pr).Neg(asFp2(pa))
 		want = r2neg(ra)
 	case "muls":
 		s := parseFe(w[3])
-		asFp2(&r).MulScalar(asFp2(&a), (*bn256.VerifGfP)(&s))
+		asFp2(pr).MulScalar(asFp2(pa), (*bn256.VerifGfP)(&s))
 		ok = ok && allReduced([]fe{s})
 		want = r2mul(ra, r2{new(big.Int), decFe(s)})
 	default:
@@ -213,21 +232,28 @@ func execT2(w []string) h.Result {
 		copy(b[:], bv)
 		ok = ok && allReduced(bv)
 		rb := decR2(bv)
+		if alias == "ab" || alias == "cab" {
+			rb, bv = ra, av
+		}
 		switch op {
 		case "mul":
-			asFp2(&r).Mul(asFp2(&a), asFp2(&b))
+			asFp2(pr).Mul(asFp2(pa), asFp2(pb))
 			want = r2mul(ra, rb)
 		case "add":
-			asFp2(&r).Add(asFp2(&a), asFp2(&b))
+			asFp2(pr).Add(asFp2(pa), asFp2(pb))
 			want = r2add(ra, rb)
 		case "sub":
-			asFp2(&r).Sub(asFp2(&a), asFp2(&b))
+			asFp2(pr).Sub(asFp2(pa), asFp2(pb))
 			want = r2sub(ra, rb)
 		default:
 			panic("unknown t2 op " + op)
 		}
 	}
+	r = *pr
 	res.Impl = hexFes(r[:])
+	if alias != "n" {
+		res.Class += "-alias-" + alias
+	}
 	if ok && haveWant && hexFes(encR2(want)) != res.Impl {
 		res.Oracle = fmt.Sprintf("c10-fp2-%s: got %s want %s", op, res.Impl, hexFes(encR2(want)))
 	}
@@ -238,9 +264,28 @@ func execT2(w []string) h.Result {
 }
 
 func execT6(w []string) h.Result {
+	alias := "n"
+	if strings.HasSuffix(w[0], "a") {
+		alias = w[2]
+		w = append([]string{w[0], w[1]}, w[3:]...)
+	}
 	op := w[1]
 	av := parseFes(w[2], 6)
 	var a, b, r fe6
+	pr, pa, pb := &r, &a, &b
+	switch alias {
+	case "n":
+	case "ca":
+		pr = pa
+	case "cb":
+		pr = pb
+	case "ab":
+		pb = pa
+	case "cab":
+		pb, pr = pa, pa
+	default:
+		panic("unknown alias " + alias)
+	}
 	copy(a[:], av)
 	res := h.Result{Class: "t6-" + op, Nontrivial: true}
 	ok := allReduced(av)
@@ -248,36 +293,36 @@ func execT6(w []string) h.Result {
 	var want r6
 	switch op {
 	case "sq":
-		asFp6(&r).Square(asFp6(&a))
+		asFp6(pr).Square(asFp6(pa))
 		want = r6mul(ra, ra)
 	case "inv":
-		asFp6(&r).Invert(asFp6(&a))
+		asFp6(pr).Invert(asFp6(pa))
 		// checked below by a·a⁻¹ = 1
 	case "tau":
-		asFp6(&r).MulTau(asFp6(&a))
+		asFp6(pr).MulTau(asFp6(pa))
 		want = r6mul(refTau, ra)
 	case "neg":
-		asFp6(&r).Neg(asFp6(&a))
+		asFp6(pr).Neg(asFp6(pa))
 		want = r6neg(ra)
 	case "frob":
-		asFp6(&r).Frobenius(asFp6(&a))
+		asFp6(pr).Frobenius(asFp6(pa))
 		want = r6exp(ra, pBig)
 	case "frob2":
-		asFp6(&r).FrobeniusP2(asFp6(&a))
+		asFp6(pr).FrobeniusP2(asFp6(pa))
 		want = r6exp(ra, p2Big)
 	case "frob4":
-		asFp6(&r).FrobeniusP4(asFp6(&a))
+		asFp6(pr).FrobeniusP4(asFp6(pa))
 		want = r6exp(ra, p4Big)
 	case "muls":
 		sv := parseFes(w[3], 2)
 		var s fe2
 		copy(s[:], sv)
-		asFp6(&r).MulScalar(asFp6(&a), asFp2(&s))
+		asFp6(pr).MulScalar(asFp6(pa), asFp2(&s))
 		ok = ok && allReduced(sv)
 		want = r6mul(ra, r6{r2zero(), r2zero(), decR2(sv)})
 	case "mulg":
 		s := parseFe(w[3])
-		asFp6(&r).MulGFP(asFp6(&a), (*bn256.VerifGfP)(&s))
+		asFp6(pr).MulGFP(asFp6(pa), (*bn256.VerifGfP)(&s))
 		ok = ok && allReduced([]fe{s})
 		want = r6mul(ra, r6{r2zero(), r2zero(), r2{new(big.Int), decFe(s)}})
 	default:
@@ -285,21 +330,28 @@ func execT6(w []string) h.Result {
 		copy(b[:], bv)
 		ok = ok && allReduced(bv)
 		rb := decR6(bv)
+		if alias == "ab" || alias == "cab" {
+			rb, bv = ra, av
+		}
 		switch op {
 		case "mul":
-			asFp6(&r).Mul(asFp6(&a), asFp6(&b))
+			asFp6(pr).Mul(asFp6(pa), asFp6(pb))
 			want = r6mul(ra, rb)
 		case "add":
-			asFp6(&r).Add(asFp6(&a), asFp6(&b))
+			asFp6(pr).Add(asFp6(pa), asFp6(pb))
 			want = r6add(ra, rb)
 		case "sub":
-			asFp6(&r).Sub(asFp6(&a), asFp6(&b))
+			asFp6(pr).Sub(asFp6(pa), asFp6(pb))
 			want = r6sub(ra, rb)
 		default:
 			panic("unknown t6 op " + op)
 		}
 	}
+	r = *pr
 	res.Impl = hexFes(r[:])
+	if alias != "n" {
+		res.Class += "-alias-" + alias
+	}
 	if ok {
 		if op == "inv" {
 			got := decR6(r[:])
@@ -323,9 +375,28 @@ var finalExp = func() *big.Int {
 }()
 
 func execT12(w []string) h.Result {
+	alias := "n"
+	if strings.HasSuffix(w[0], "a") {
+		alias = w[2]
+		w = append([]string{w[0], w[1]}, w[3:]...)
+	}
 	op := w[1]
 	av := parseFes(w[2], 12)
 	var a, b, r fe12
+	pr, pa, pb := &r, &a, &b
+	switch alias {
+	case "n":
+	case "ca":
+		pr = pa
+	case "cb":
+		pr = pb
+	case "ab":
+		pb = pa
+	case "cab":
+		pb, pr = pa, pa
+	default:
+		panic("unknown alias " + alias)
+	}
 	copy(a[:], av)
 	res := h.Result{Class: "t12-" + op, Nontrivial: true}
 	ok := allReduced(av)
@@ -334,32 +405,32 @@ func execT12(w []string) h.Result {
 	haveWant := true
 	switch op {
 	case "sq":
-		asFp12(&r).Square(asFp12(&a))
+		asFp12(pr).Square(asFp12(pa))
 		want = r12mul(ra, ra)
 	case "inv":
-		asFp12(&r).Invert(asFp12(&a))
+		asFp12(pr).Invert(asFp12(pa))
 		haveWant = false
 	case "conj":
-		asFp12(&r).Conjugate(asFp12(&a))
+		asFp12(pr).Conjugate(asFp12(pa))
 		want = r12{r6neg(ra.x), ra.y}
 	case "neg":
-		asFp12(&r).Neg(asFp12(&a))
+		asFp12(pr).Neg(asFp12(pa))
 		want = r12neg(ra)
 	case "frob":
-		asFp12(&r).Frobenius(asFp12(&a))
+		asFp12(pr).Frobenius(asFp12(pa))
 		want = r12exp(ra, pBig)
 	case "frob2":
-		asFp12(&r).FrobeniusP2(asFp12(&a))
+		asFp12(pr).FrobeniusP2(asFp12(pa))
 		want = r12exp(ra, p2Big)
 	case "frob4":
-		asFp12(&r).FrobeniusP4(asFp12(&a))
+		asFp12(pr).FrobeniusP4(asFp12(pa))
 		want = r12exp(ra, p4Big)
 	case "exp":
 		k := h.BigDec(w[3])
-		asFp12(&r).Exp(asFp12(&a), k)
+		asFp12(pr).Exp(asFp12(pa), k)
 		want = r12exp(ra, k)
 	case "finexp":
-		r = fromFp12(bn256.VerifFinalExponentiation(asFp12(&a)))
+		*pr = fromFp12(bn256.VerifFinalExponentiation(asFp12(pa)))
 		if r12isZero(ra) {
 			haveWant = false
 		} else {
@@ -370,21 +441,28 @@ func execT12(w []string) h.Result {
 		copy(b[:], bv)
 		ok = ok && allReduced(bv)
 		rb := decR12(bv)
+		if alias == "ab" || alias == "cab" {
+			rb, bv = ra, av
+		}
 		switch op {
 		case "mul":
-			asFp12(&r).Mul(asFp12(&a), asFp12(&b))
+			asFp12(pr).Mul(asFp12(pa), asFp12(pb))
 			want = r12mul(ra, rb)
 		case "add":
-			asFp12(&r).Add(asFp12(&a), asFp12(&b))
+			asFp12(pr).Add(asFp12(pa), asFp12(pb))
 			want = r12add(ra, rb)
 		case "sub":
-			asFp12(&r).Sub(asFp12(&a), asFp12(&b))
+			asFp12(pr).Sub(asFp12(pa), asFp12(pb))
 			want = r12sub(ra, rb)
 		default:
 			panic("unknown t12 op " + op)
 		}
 	}
+	r = *pr
 	res.Impl = hexFes(r[:])
+	if alias != "n" {
+		res.Class += "-alias-" + alias
+	}
 	if ok {
 		if op == "inv" {
 			if allReduced(r[:]) && !r12isZero(ra) && !r12eq(r12mul(ra, decR12(r[:])), r12one()) {
@@ -930,11 +1008,11 @@ func exec(line string) h.Result {
 		return execField(w)
 	case "fx":
 		return execFx(w)
-	case "t2":
+	case "t2", "t2a":
 		return execT2(w)
-	case "t6":
+	case "t6", "t6a":
 		return execT6(w)
-	case "t12":
+	case "t12", "t12a":
 		return execT12(w)
 	case "g1":
 		return execG1(w)
